@@ -163,14 +163,17 @@ fn drop_case(ctx: &mut Ctx, index: u64, rng: &mut Rng) {
     ctx.distinct(sched.fingerprint() ^ fnv(&names.join(",")));
     let eof = wire.peer_sees_eof();
     ctx.count("handles_dropped", total as u64);
+    if early_eof_at.is_some() {
+        // recorded, not judged: the property only speaks about the last handle
+        ctx.count("eof_seen_before_last_drop", 1);
+    }
     let desc = json!({"drop_order": names, "quiescent": q, "peer_sees_eof": eof, "trace": sched.trace_string()});
     if !eof {
         let what = if names.iter().any(|n| n.starts_with("signalstream")) { "with-signal-stream" } else if names.iter().any(|n| n.starts_with("proxy")) { "with-proxy" } else if names.iter().any(|n| n.contains("filtered")) { "with-streams" } else { "connections-only" };
         ctx.finding(index, "transport-not-closed-after-last-handle-dropped", what, "-", desc);
     }
-    if index % 400 == 0 {
-        ctx.sample(json!({"drop_order": names}));
-    }
+    // the first drop cases of every shard are written out (Ctx caps the number per shard)
+    ctx.sample(json!({"class": "drop", "drop_order": names, "peer_saw_eof_before_last_drop": early_eof_at, "peer_sees_eof_at_quiescence": eof, "schedule": sched.trace_string().chars().take(160).collect::<String>()}));
 }
 
 fn shutdown_case(ctx: &mut Ctx, index: u64, rng: &mut Rng) {
@@ -259,6 +262,7 @@ fn shutdown_case(ctx: &mut Ctx, index: u64, rng: &mut Rng) {
     if !wire.peer_sees_eof() {
         ctx.finding(index, "transport-not-closed-after-graceful-shutdown", "-", "-", desc);
     }
+    ctx.sample(json!({"class": "graceful-shutdown", "handlers": nh, "gate_open_order": order, "handler_log": gates.lock().unwrap().log.clone(), "replies_on_wire": replies.len(), "peer_sees_eof": wire.peer_sees_eof(), "schedule": sched.trace_string().chars().take(160).collect::<String>()}));
 }
 
 pub fn run(ctx: &mut Ctx) {
